@@ -832,8 +832,8 @@ where
     // pts[0] = identity (cheap for the driver), pts[1] = generator, the others rotate
     raw_ops(cv, out, rng, &pts[..1], &raws, if thorough { 4 } else { 1 });
     if thorough {
-        raw_ops(cv, out, rng, &pts[1..np.min(3)], &raws, 4);
-        raw_ops(cv, out, rng, &pts[np.min(3)..np], &raws, 1);
+        raw_ops(cv, out, rng, &pts[1..2], &raws, 4);
+        raw_ops(cv, out, rng, &pts[2..np], &raws, 1);
     } else {
         for (i, p) in pts[1..np].iter().enumerate() {
             let sel: Vec<Vec<u64>> = raws.iter().enumerate().filter(|(j, _)| (j + i) % (np - 1) == 0).map(|(_, s)| s.clone()).collect();
@@ -842,8 +842,8 @@ where
     }
     let ks: Vec<A::ScalarField> = field_scalars(rng, if thorough { 15 * scale } else { 4 * scale }, thorough);
     if thorough {
-        scalar_ops(cv, out, rng, &pts[..np.min(3)], &ks, 3);
-        scalar_ops(cv, out, rng, &pts[np.min(3)..np], &ks, 1);
+        scalar_ops(cv, out, rng, &pts[..2], &ks, 3);
+        scalar_ops(cv, out, rng, &pts[2..np], &ks, 1);
     } else {
         scalar_ops(cv, out, rng, &pts[..1], &ks[..8], 3);
         for (i, p) in pts[1..np].iter().enumerate() {
@@ -855,7 +855,7 @@ where
     // wNAF, windows 2..=10 with fresh tables
     let ws = [2usize, 3, 4, 5, 6, 7, 8, 9, 10];
     if thorough {
-        let kw: Vec<A::ScalarField> = ks.iter().step_by(4).copied().collect();
+        let kw: Vec<A::ScalarField> = ks.iter().step_by(6).copied().collect();
         wnaf_ops(cv, out, rng, &pts[1..np.min(3)], &kw, &ws, 4);
     } else {
         // every scalar once, windows rotating
@@ -869,11 +869,11 @@ where
     mwt_ops(cv, out, rng, &pts[1..2], &few, if thorough { &[2, 3, 4] } else { &[3] });
     // fixed base
     batch_ops(cv, out, rng, &pts[1..2], &[vec![A::ScalarField::zero()]], &[1], &[0], false);
-    let kb: Vec<A::ScalarField> = ks.iter().step_by((ks.len() / (if thorough { 24 } else { 4 })).max(1)).copied().collect();
+    let kb: Vec<A::ScalarField> = ks.iter().step_by((ks.len() / (if thorough { 12 } else { 4 })).max(1)).copied().collect();
     let rb = cv.rbits;
     let kss = vec![kb.clone(), vec![]];
     if thorough {
-        batch_ops(cv, out, rng, &pts[1..2], &kss, &[1, 2, 31, 32, 33, 1000], &[rb - 1, rb, rb + 1, 64 * cv.n, 64 * cv.n + 5, 17, 0], false);
+        batch_ops(cv, out, rng, &pts[1..2], &kss, &[1, 2, 31, 32, 33, 1000], &[rb - 1, rb, rb + 1, 64 * cv.n + 5, 17, 0], false);
         batch_ops(cv, out, rng, &pts[..1], &kss[..1], &[1, 33], &[rb], false);
         batch_ops(cv, out, rng, &pts[2..3], &[cyc(&kb, 33), cyc(&kb, 1000)], &[33], &[rb], false);
     } else {
